@@ -71,10 +71,11 @@ def check_core_family(prop, tier):
         co = coreobj_pipeline(prop, tier, purpose={"C01": "local", "C02": "public"}.get(prop))
         extra_viol = extra_viol + co["violations"]
         extra_cov.update({"core_object_histories": co["n"], "core_object_mints_read_back": co["nmint"], "core_object_model_states": co["states"]})
-    if prop in ("C01", "C02"):
-        # "the same holds end to end through the generic and batteries-included builders and parsers"
+    if prop in ("C01", "C02", "C05", "C06"):
+        # "the same holds end to end through the generic and batteries-included builders and parsers";
+        # set_footer / set_implicit_assertion on the builders must reach every token built (C05, C06)
         conf = dict(fam="c13", rnd=(600, 6000), nonce=(0, 0), whys=(prop,), maxops=(4, 5), deep=False, allprotos=True)
-        r = builder_pipeline(prop, tier, conf, purpose="local" if prop == "C01" else "public")
+        r = builder_pipeline(prop, tier, conf, purpose={"C01": "local", "C02": "public"}.get(prop))
         extra_viol = extra_viol + r["violations"]
         extra_cov.update({"builder_histories_executed": r["n"], "builder_builds_read_back": r["nbuilds"],
                           "builder_model_states": r["states"]})
